@@ -56,7 +56,7 @@ Definition van_encryption_request (c : ctx) : VL :=
   if ver_ge c v1_8 then
     seq [fld "ServerID" (PString 20); fld "PublicKey" (PBytes 32767); fld "VerifyToken" (PBytes 32767)]
         (if ver_ge c v1_20_5 then seq [@LPrim LP (FNeg (FPath ["DisableAuthenticate"])) PBool] fin else fin)
-  else seq [fld "ServerID" (PString 20); fld "PublicKey" PBytes17V; fld "VerifyToken" PBytes17V] fin.
+  else seq [fld "ServerID" (PString 20); fld "PublicKey" PBytes17; fld "VerifyToken" PBytes17] fin.
 
 (* Encryption response: secret; 1.19 - 1.19.2: Either (bool true: verify token | false: long salt + signature bytes) *)
 Definition van_encryption_response (c : ctx) : VL :=
@@ -67,7 +67,7 @@ Definition van_encryption_response (c : ctx) : VL :=
                 (seq [fld "VerifyToken" (PBytes 32767)] fin)
                 (seq [fld "Salt" (PInt 8 true); fld "VerifyToken" (PBytes 32767)] fin)
          else seq [fld "VerifyToken" (PBytes 32767)] fin)
-  else seq [fld "SharedSecret" PBytes17V; fld "VerifyToken" PBytes17V] fin.
+  else seq [fld "SharedSecret" PBytes17; fld "VerifyToken" PBytes17] fin.
 
 (* Login success: uuid as undashed text (1.7.2-1.7.5), dashed text (1.7.6 - 1.15), four ints (1.16 - 1.18), raw (1.19+);
    name; 1.19+: properties; 1.20.5 - 1.21.1: strict error handling flag; 26.2: session id *)
@@ -94,7 +94,7 @@ Definition van_plugin_message (c : ctx) : VL :=
   let ch := if ver_ge c v1_13 then @LPrim LP (FFun "TransformLegacyToModernChannel" ["Channel"]) (PString 32767)
             else fld "Channel" (PString 32767) in
   if ver_ge c v1_8 then seq [ch] (rest_of "Data" (if ccb c then Some 1048576%N else Some 32767%N))
-  else seq [ch; fld "Data" PBytes17V] fin.
+  else seq [ch; fld "Data" PBytes17] fin.
 
 (* Player info remove: VarInt count, UUIDs *)
 Definition van_playerinfo_remove (c : ctx) : VL :=
@@ -155,11 +155,14 @@ Definition upsert_layout_in_order (acts : list N) (c : ctx) : VL :=
 
 Definition canonical (acts : list N) : list N := filter (fun a => existsb (N.eqb a) acts) [0; 1; 2; 3; 4; 5; 6; 7]%N.
 
-(* what a vanilla client reads *)
+(* what a vanilla client reads = what the property demands *)
 Definition van_upsert (acts : list N) (c : ctx) : VL := upsert_layout_in_order (canonical acts) c.
-(* what playerinfo.Upsert.Encode writes: bit set canonical, entry data in the order of ActionSet (hand model of the Go method) *)
-Definition impl_upsert (acts : list N) (c : ctx) : VL := upsert_layout_in_order acts c.
 Definition spec_upsert := van_upsert.
+(* what playerinfo.Upsert.Encode writes TODAY (fix d54f770): it iterates the protocol's action list and writes the data
+   of the actions contained in ActionSet - bit set and entry data both canonical (hand model of the Go method) *)
+Definition impl_upsert (acts : list N) (c : ctx) : VL := upsert_layout_in_order (canonical acts) c.
+(* PRE-FIX encoder (before d54f770): bit set canonical, entry data in the order of ActionSet *)
+Definition prefix_upsert (acts : list N) (c : ctx) : VL := upsert_layout_in_order acts c.
 
 (* ----- Login start (hello): name; 1.19: optional profile key; 1.19.1: + optional holder uuid; 1.19.3: holder uuid only;
    1.20.2: uuid mandatory.  Field names are those of the harness's dump of the intended values. *)
@@ -206,7 +209,5 @@ Definition references : list (string * (ctx -> VL)) := [
   ("playerinfo.Remove", van_playerinfo_remove)
 ].
 
-(* contexts where gate is known to deviate from the reference (finding C07-2): 1.7 arrays *)
-Definition uses_17_array (name : string) : bool :=
-  String.eqb name "plugin.Message" || String.eqb name "packet.EncryptionRequest" || String.eqb name "packet.EncryptionResponse".
-Definition covered (name : string) (c : ctx) : bool := negb (uses_17_array name && (cver c <? v1_8)).
+(* PRE-FIX (before 6e760d1) plugin message below 1.8 as gate encoded it: one-byte array length *)
+Definition prefix_plugin_message_17 : VL := seq [fld "Channel" (PString 32767); fld "Data" PBytes17Old] fin.
